@@ -25,6 +25,7 @@ def corpus(ctx):
         ("jdf:tree.jdf", "tree", [("T", 0, None), ("S", 1, None)], [range(0, 4 if t else 3)]),
         ("jdf:derived.jdf", "derived", [("P", 0, 1), ("Q", 0, None)], [range(-1, 4 if t else 3)]),
         ("jdf:pingpong.jdf", "pingpong", [("PING", 0, None), ("PONG", 0, None)], [r5 if t else r4]),
+        ("jdf:between.jdf", "between", [("T", 0, None), ("U", 0, None)], [r4]),
         ("repo:tests/dsl/ptg/startup.jdf", "startup", [("STARTUP", 0, None)], [r4, r4, range(0, 3)] if t else [range(0, 3)] * 3),
         ("repo:tests/dsl/ptg/strange.jdf", "strange", [("START", 1, None), ("TASK", 0, None)], [r5 if t else r4, range(-2, 3)]),
         ("repo:examples/Ex02_Chain.jdf", "Ex02_Chain", [("Task", 0, None)], [r5 if t else r4]),
